@@ -408,6 +408,36 @@ func genRandomCase(r *lib.Rng, mode000 bool) Case {
 		if r.Chance(1, 6) {
 			cs.Mods = append(cs.Mods, g.genModule("globalroot", "", uk))
 		}
+	case x < 88:
+		// file-based loaders parented by file-based loaders: the top loader (Mods[0]) is a module's, the last one
+		// (whose parent is the system loader) mostly the environment's.  Generated from the far end so that the
+		// files of a loader can refer to what the loaders above it define (TypeSet members in particular).
+		cs.Top = "chain"
+		cs.Family = "random.chain"
+		var rev []ModSpec
+		switch y := r.Intn(10); {
+		case y < 7:
+			env := []string{"environment", "environment", ""}[r.Intn(3)]
+			rev = append(rev, g.genModule("env", env, uk))
+		case y < 9:
+			mod := []string{"other", "tsmod"}[r.Intn(2)]
+			rev = append(rev, g.genModule(mod, mod, uk))
+		default:
+			rev = append(rev, g.genModule("env", "", uk))
+			rev = append(rev, g.genModule("env2", "environment", uk))
+		}
+		seen := map[string]bool{"other": true, "tsmod": true, "environment": true, "init_typeset": true}
+		for k := 1 + r.Intn(2); k > 0; k-- {
+			mod := modPool[r.Intn(len(modPool))]
+			if seen[mod] {
+				continue
+			}
+			seen[mod] = true
+			rev = append(rev, g.genModule(mod, mod, uk))
+		}
+		for i := len(rev) - 1; i >= 0; i-- {
+			cs.Mods = append(cs.Mods, rev[i])
+		}
 	default:
 		cs.Top = "runtime"
 		cs.Family = "random.runtime"
@@ -430,8 +460,77 @@ func genRandomCase(r *lib.Rng, mode000 bool) Case {
 			cs.Mods = append(cs.Mods, ModSpec{Dir: "plainfile", Name: "plainfile", IsFile: true})
 		}
 	}
-	genOps(r, &cs, g.names, 6+r.Intn(20))
+	nops := 6 + r.Intn(20)
+	if cs.Top == "chain" {
+		nops += 8 // what a loader answers the second and third time matters here
+	}
+	genOps(r, &cs, g.names, nops)
 	return cs
+}
+
+// ------------------------------------------------------------------------------------------------
+// bounded-exhaustive family for a chain of two file-based loaders: the environment's loader (global) with no
+// or one file, under it the loader of module m with no or one file; every name of a fixed set is looked up
+// through the module loader three times (directly, through a child context, directly in reverse order), then
+// HasEntry for every name and Discover on both loaders.
+
+var chParentPaths = []string{"types/a.pp", "types/m.pp", "types/m/b.pp", "types/a/b.pp"}
+var chParentKinds = []string{"good", "ts1", "anon", "malformed", "wrong"}
+var chChildPaths = []string{"types/b.pp", "types/init_typeset.pp", "types/a.pp"}
+var chChildKinds = []string{"good", "ts1", "wrong", "goodref"}
+var chNames = []string{"A", "A::B", "M", "M::B", "M::A", "M::B::B", "A::B::B"}
+
+func chOps(rot int) []Op {
+	var ops []Op
+	n := len(chNames)
+	for i := 0; i < n; i++ {
+		ops = append(ops, Op{Op: "load", Ctx: -1, Name: chNames[(i+rot)%n]})
+	}
+	for i := 0; i < n; i++ {
+		ops = append(ops, Op{Op: "load", Ctx: 0, Name: chNames[(i+rot)%n]})
+	}
+	for i := n - 1; i >= 0; i-- {
+		nm := chNames[(i+rot)%n]
+		if i%2 == 1 {
+			nm = strings.ToLower(nm)
+		}
+		ops = append(ops, Op{Op: "load", Ctx: -1, Name: nm})
+	}
+	for _, nm := range chNames {
+		ops = append(ops, Op{Op: "has", Mod: 0, Name: nm}, Op{Op: "has", Mod: 1, Name: nm})
+	}
+	ops = append(ops, Op{Op: "discover", Mod: 0}, Op{Op: "discover", Mod: 1})
+	return ops
+}
+
+func genExhaustiveChain(each func(Case)) {
+	idx := 0
+	for _, env := range []string{"environment", ""} {
+		var parents [][]FileSpec
+		parents = append(parents, nil)
+		for _, p := range chParentPaths {
+			for _, k := range chParentKinds {
+				parents = append(parents, []FileSpec{exFile(env, p, k, 30)})
+			}
+		}
+		var children [][]FileSpec
+		children = append(children, nil)
+		for _, p := range chChildPaths {
+			for _, k := range chChildKinds {
+				children = append(children, []FileSpec{exFile("m", p, k, 10)})
+			}
+		}
+		for pi, pf := range parents {
+			for ci, cf := range children {
+				if env == "" && (pi+ci)%3 != 0 {
+					continue // the unnamed global loader behaves as the environment's: a third of the combinations
+				}
+				idx++
+				each(Case{Family: "exhaustive.chain", Top: "chain",
+					Mods: []ModSpec{{Dir: "m", Name: "m", Files: cf}, {Dir: "env", Name: env, Files: pf}}, Ops: chOps(idx)})
+			}
+		}
+	}
 }
 
 // ------------------------------------------------------------------------------------------------
@@ -466,6 +565,8 @@ func exFile(mod string, rel, kind string, marker int) FileSpec {
 		c.Class, c.Declared = "good", name
 	case "wrong":
 		c.Class, c.Declared = "good", name+"x"
+	case "goodref":
+		c.Class, c.Declared, c.Refs = "good", name, []string{"A::B"}
 	case "anon":
 		c.Class = "anon"
 	case "ts1":
@@ -630,6 +731,35 @@ func corpus() []Case {
 	for _, p := range []string{"a.pp", "ns/b.pp", "init.pp", "init_typeset.pp", "ns/init.pp", "Upper/File.pp", "ab", "", "x.txt", ".pp", "a/b/c/d.pp"} {
 		dops = append(dops, Op{Op: "typednames", Mod: 0, Name: p}, Op{Op: "typednames", Mod: 1, Name: p})
 	}
+	// a module loader whose parent is the environment's loader: the environment defines a TypeSet, a file of the
+	// module refers to a member of it; every name is looked up several times, in several orders, through the
+	// module loader and through children of it (what was asked for before must not change an answer)
+	chainMods := func() []ModSpec {
+		return []ModSpec{
+			{Dir: "moda", Name: "moda", Files: []FileSpec{good("types/thing.pp", "Moda::Thing", 10, "Shapes::Circle"),
+				tsFile("types/init_typeset.pp", "Moda", 20, "Car")}},
+			{Dir: "env", Name: "environment", Files: []FileSpec{tsFile("types/shapes.pp", "Shapes", 30, "Circle", "Square"),
+				good("types/plain.pp", "Plain", 40), good("types/uses.pp", "Uses", 50, "Moda::Thing", "Moda::Car")}}}
+	}
+	for k, names := range [][]string{
+		{"Shapes::Circle", "Shapes::Circle", "Shapes::Square", "Shapes", "Plain"},
+		{"Shapes", "Shapes::Circle", "Shapes::Square", "shapes::circle"},
+		{"Moda::Thing", "Shapes::Circle", "Shapes::Square", "Moda::Thing"},
+		{"Plain", "Plain", "Moda::Car", "Moda::Car", "Moda", "Moda::Thing", "Uses", "Uses"},
+		{"Uses", "Moda::Car", "Shapes::Square", "SHAPES::SQUARE", "Shapes::Oval", "Moda::Nope", "Moda::Nope"}} {
+		ops := append(loads(-1, names...), loads(0, names...)...)
+		ops = append(ops, loads(1, names...)...)
+		ops = append(ops, Op{Op: "has", Mod: 0, Name: "Shapes"}, Op{Op: "has", Mod: 0, Name: "Moda::Thing"}, Op{Op: "has", Mod: 1, Name: "Moda::Thing"},
+			Op{Op: "discover", Mod: 0}, Op{Op: "discover", Mod: 1})
+		add(Case{Family: fmt.Sprintf("chain-%d", k), Top: "chain", Mods: chainMods(), Ops: ops})
+	}
+	// three loaders in a chain, the TypeSet in the middle one, bad files above and below
+	add(Case{Family: "chain-3", Top: "chain", Mods: []ModSpec{
+		{Dir: "mymod", Name: "mymod", Files: []FileSpec{good("types/foo.pp", "Mymod::Foo", 10, "Other::Set::One", "Top"), good("types/wrong.pp", "Mymod::Other", 20)}},
+		{Dir: "other", Name: "other", Files: []FileSpec{tsFile("types/set.pp", "Other::Set", 30, "One", "Two"), good("types/x.pp", "Other::X", 40, "Mymod::Foo")}},
+		{Dir: "env", Name: "", Files: []FileSpec{good("types/top.pp", "Top", 50), {Rel: "types/bad.pp", Kind: "file", Content: &Content{Class: "malformed", Declared: "Bad", Tmpl: 1, Marker: 60}}}}},
+		Ops: append(append(loads(-1, "Other::Set::One", "Other::Set::One", "Mymod::Foo", "Other::Set::Two", "Top", "Bad", "Bad", "Mymod::Wrong", "Mymod::Wrong"),
+			loads(0, "Other::Set::Two", "Other::X", "Other::Set", "other::set::one", "Top", "Nope")...), Op{Op: "discover", Mod: 0}, Op{Op: "has", Mod: 1, Name: "Top"})})
 	add(Case{Family: "derivation", Top: "dep", Mods: []ModSpec{{Dir: "mymod", Name: "mymod"}, {Dir: "globalroot", Name: ""}}, Ops: dops})
 	return cs
 }
